@@ -8,3 +8,6 @@ def run(chk, replay):
         # the working directory changes between validations: what the validator accepted is what the reader reads (PoolEnv.tla)
         from harness import poolenv
         poolenv.tool_phase(chk, "taste-read")
+        # hierarchies with refinement ratios 2 / 4 / mixed (Refine.tla): accepted => every box reads completely
+        from harness import refine
+        refine.phase(chk, "read")
